@@ -353,7 +353,7 @@ func ZZ_C05_issuance() {
 // grant works on a CLONE of the stored session, and each type clones itself.
 func ZZ_C05_session_types() {
 	kind := zz.Choice("session-type", 3)
-	wd := world.NewX(world.XOptions{JWTAccess: kind == 2})
+	wd := world.NewX(world.XOptions{JWTAccess: kind == 2, DeterministicJWT: true})
 	subject := zz.StringEx("subject", 6, " ")
 	zz.Assume(subject != "")
 	var sess fosite.Session
